@@ -12,8 +12,9 @@ CHECKS = {
              'model equals the key order of Spec/Dpkg.v (non-digit runs ranked tilde < end < letters < others, digit runs by '
              'value), proved by induction on fuel with no bound on lengths or digit-run sizes; compare_versions on any two '
              'accepted strings is the lexicographic order of (epoch, upstream key, revision key) and never raises. The '
-             'transcription of dpkg verrevcmp (Spec/Dpkg.v) is co-executed with the model, with the key order and with the '
-             'dpkg binary on every run; its equivalence with the key order is not yet a theorem (partial). The model is '
+             'statement-by-statement transcription of dpkg verrevcmp/dpkg_version_compare (Spec/Dpkg.v) is proved to compute '
+             'the same order for all strings (decimal-value lemmas, digit/non-digit loop invariants), so compare_versions = '
+             'sgn(dpkg_version_compare) is a theorem; the transcription is additionally compared with the dpkg binary. The model is '
              'co-executed with version.py on the whole 68x68 rank table, all pairs of strings of length <=2/3 over a 9-character '
              'representative alphabet and structured random pairs.',
         note=TRUST + 'Spec: transcription of dpkg lib/dpkg/version.c (validated against /usr/bin/dpkg when present). '
